@@ -17,7 +17,7 @@ KINDS = {
     "C07": {"compile", "compile_kind"},
     "C08": {"optdiff", "facts", "lowering"} | SEM,
     "C09": {"class"},
-    "C10": {"unicode", "compile"},
+    "C10": set(SEM) | {"unicode"},
     "C11": set(SEM) | {"repl", "weakspan", "weakend"},
     "C12": set(SEM) | {"repl", "weakspan", "weakend"},
     "C13": set(SEM) | FAULTS | {"repl", "replerr"},
@@ -74,14 +74,19 @@ def plan(prop, tier):
         return [G("sem", MaxSize=4, MaxLen=3 if q else 4)] + \
                ([] if q else [G("sem5", Leaves="<-LvCore", Quants="<-QSmall", MaxSize=5, MaxLen=3),
                               G("bref5", Leaves="<-LvBref", Quants="<-QSmall", MaxSize=5, MaxLen=4)]) + \
-               [G("varlen", Leaves="<-LvVarLen", Quants="<-QSmall", MaxSize=3 if q else 4, MaxLen=4),
+               [G("varlen", Leaves="<-LvVarLen", Quants="<-QVarLen", MaxSize=3 if q else 4, MaxLen=4),
                 G("flags", Leaves="<-LvAnch", Quants="<-QSmall", MaxSize=3 if q else 4, FlagSets="<-AllFlags",
                   Alpha="{97, 10}", MaxLen=3),
+                G("fixed", Leaves="<-LvOptFix", Quants="<-QFix", MaxSize=3 if q else 4, MaxLen=5, invs=["T1_RoundTrip", "T2_OrderFree"]),
+                G("altnull", Leaves="<-LvAltNull", Quants="<-QOptOnly", MaxSize=3, Alpha="{120, 97, 98}", MaxLen=3,
+                  Shapes="<-ShapesNoGrp", invs=["T1_RoundTrip", "T2_OrderFree"]),
                 T("rand", "general", 2000, 40000)] + ([] if q else [SUITE])
     if prop == "C02":
         return [G("prio", Leaves="<-LvCore", Quants="<-QAll", MaxSize=4, MaxLen=3 if q else 4)] + \
                ([] if q else [G("prio5", Leaves="<-LvCore", Quants="<-QSmall", MaxSize=5, MaxLen=3)]) + [
-                G("varlen", Leaves="<-LvVarLen", Quants="<-QSmall", MaxSize=3 if q else 4, MaxLen=4),
+                G("varlen", Leaves="<-LvVarLen", Quants="<-QVarLen", MaxSize=3 if q else 4, MaxLen=4),
+                G("altnull", Leaves="<-LvAltNull", Quants="<-QOptOnly", MaxSize=3 if q else 4, Alpha="{120, 97, 98}", MaxLen=3 if q else 4,
+                  Shapes="<-ShapesNoGrp"),
                 G("astral", Leaves="<-LvAstral", Quants="<-QSmall", MaxSize=3 if q else 4, Alpha="{66560, 769, 97}",
                   MaxLen=3),
                 G("ml", Leaves="<-LvAnch", Quants="<-QSmall", MaxSize=3 if q else 4, FlagSets="<-FlagsMS",
@@ -96,6 +101,8 @@ def plan(prop, tier):
                   Repl2="<-ReplG2", invs=["T1_RoundTrip", "T3_Leftmost"]),
                 G("mlcaps", Leaves="<-LvMlCaps", Quants="<-QOptOnly", MaxSize=5 if q else 6, MaxGroups=9, FlagSets="<-FlagsM",
                   Shapes="<-ShapesNoGrp", Alpha="{97, 98, 10}", MaxLen=3, Repl2="<-ReplG2", invs=["T1_RoundTrip", "T3_Leftmost"]),
+                G("brefalt", Leaves="<-LvBrefAlt", Quants="<-QBrefAlt", MaxSize=4, MaxLen=4, MaxGroups=2,
+                  Shapes="<-ShapesNoGrp", Repl2="<-ReplG2", invs=["T1_RoundTrip", "T3_Leftmost"]),
                 T("rand", "groups", 2000, 40000), T("mlg", "mlgroups", 1000, 20000)]
     if prop == "C04":
         return [G("part", Leaves="<-LvCore", Quants="<-QSmall", MaxSize=4, MaxLen=3 if q else 4,
@@ -106,6 +113,8 @@ def plan(prop, tier):
                   MaxLen=3, Variants='{"base", "xsd"}'),
                 G("ml", Leaves="<-LvAnch", Quants="<-QSmall", MaxSize=3 if q else 4, FlagSets="<-FlagsMS",
                   Alpha="{97, 10}", MaxLen=4, Repl2="<-ReplHash"),
+                G("casei", Leaves="<-LvCaseL1", Quants="<-QBasic", MaxSize=2 if q else 3, FlagSets="<-FlagsI",
+                  Alpha="{233, 201, 53}", MaxLen=3, Repl2="<-ReplHash"),
                 T("rand", "spans", 1000, 20000), T("astralr", "astral", 1000, 20000),
                 T("mlr", "anchors", 1000, 20000)] + ([] if q else [SUITE])
     if prop == "C05":
@@ -115,6 +124,8 @@ def plan(prop, tier):
                 G("valid", Leaves="<-LvAll", Quants="<-QAll", MaxSize=3, MaxLen=2, invs=["T1_RoundTrip"]),
                 G("nest", Leaves="<-LvNest", Quants="<-QBasic" if q else "<-QBasicLazy", MaxSize=5, MaxGroups=9, Shapes="<-ShapesNoGrp", MaxLen=3,
                   invs=["T1_RoundTrip"]),
+                G("brefi", Leaves="<-LvBrefI", Quants="<-QBasic", MaxSize=4, MaxLen=3, FlagSets="<-FlagsI", Alpha="{97, 65, 98}",
+                  invs=["T1_RoundTrip"]),                                   # back-references near the end of the input, both case modes
                 T("mut", "general", 2000, 40000, mode="mutants"), T("garbage", "general", 2000, 60000, mode="garbage"),
                 T("bounds", "general", 2200, 21000, mode="bounds"), T("rand", "groups", 1500, 30000),
                 T("dial", "dialect", 1000, 20000, mode="mutants")] + ([] if q else [SUITE])
@@ -136,13 +147,14 @@ def plan(prop, tier):
                 T("mut", "general", 2000, 40000, mode="mutants"), T("rand", "classes", 1000, 20000)]
     if prop == "C13":
         return [K("lit", Mode='"lit"', Toks='"meta"', MaxToks=2 if q else 3, invs=["T10_QLiteral"]),
+                K("litov", Mode='"lit"', Toks='"ab"', MaxToks=4 if q else 5, LitFlags='"qi"', invs=["T10_QLiteral"]),
                 T("rand", "repl", 1500, 30000)]
     if prop == "C15":
         return [R("repl", 3 if q else 4), T("rand", "repl", 2000, 40000)]
     if prop == "C08":
         o = {"also_unopt": True, "facts": True}
-        T18 = THEOREMS + ([] if q else ["T18_SearchSound"])            # (T18 on the big stages only in the thorough tier)
-        T18a = THEOREMS + ["T18_SearchSound"]
+        T18 = THEOREMS + ["T21_OpSem"] + ([] if q else ["T18_SearchSound"])   # (T18 on the big stages only in the thorough tier)
+        T18a = THEOREMS + ["T18_SearchSound", "T21_OpSem"]
         return [dict(G("shapes", Leaves="<-LvOpt", Quants="<-QOpt8", MaxSize=3, MaxLen=3 if q else 4,
                        FlagSets="<-FlagsIM", Alpha="{97, 65, 10}", invs=T18), **o)] + \
                ([] if q else [dict(G("shapes4", Leaves="<-LvOpt6", Quants="<-QSmall", MaxSize=4, MaxLen=3,
@@ -151,8 +163,10 @@ def plan(prop, tier):
                        Alpha="{97, 10}", MaxLen=3, invs=T18a), **o),
                 dict(G("fixed", Leaves="<-LvOptFix", Quants="<-QFix", MaxSize=4, FlagSets="<-OnlyNoFlags",
                        Alpha="{97, 98}", MaxLen=5 if q else 6,
-                       invs=["T1_RoundTrip", "T2_OrderFree"] + ([] if q else ["T18_SearchSound"])), **o),
+                       invs=["T1_RoundTrip", "T2_OrderFree", "T21_OpSem"] + ([] if q else ["T18_SearchSound"])), **o),
                 dict(G("sem", MaxSize=3 if q else 4, MaxLen=3), **o),
+                dict(G("prefix", Leaves="<-LvABEol", Quants="<-QOptOnly", Shapes="<-ShapesSeq", MaxSize=4, MaxLen=5 if q else 6,
+                       invs=["T1_RoundTrip", "T18_SearchSound", "T21_OpSem"]), **o),        # literal prefixes that overlap themselves
                 dict(G("casei", Leaves="<-LvCaseOpt", Quants="<-QBasicLazy", MaxSize=3, MaxLen=3, FlagSets="<-FlagsI",
                        Alpha="{233, 201, 955}", invs=["T1_RoundTrip", "T2_OrderFree", "T18_SearchSound"]), **o),
                 T("rand", "general", 2000, 40000, unopt=True), T("case", "case", 1000, 20000, unopt=True),
@@ -161,7 +175,8 @@ def plan(prop, tier):
         return [{"type": "classes", "tag": "cls", "nrand": 300 if q else 3000, "full": 150 if q else 1200},
                 K("class", Toks='"class"', MaxToks=4 if q else 6)]
     if prop == "C10":
-        return [{"type": "unicode", "tag": "uni"}, T("names", "classes", 200, 2000, mode="names")]
+        return [{"type": "unicode", "tag": "uni"}, T("names", "classes", 200, 2000, mode="names"),
+                T("pairs", "classes", 800, 6000, mode="escpairs")]
     if prop == "C11":
         return [G("ascii", Leaves="<-LvCase", Quants="<-QSmall", MaxSize=3, FlagSets="<-FlagsI",
                   Alpha="{97, 65, 66, 49}", MaxLen=3)] + \
@@ -175,6 +190,8 @@ def plan(prop, tier):
                   Alpha="{66600, 66560, 97}", MaxLen=3),
                 G("punct", Leaves="<-LvPunct", Quants="<-QBasic", MaxSize=2 if q else 3, FlagSets="<-FlagsI",
                   Alpha="{91, 123, 94, 126, 64, 96, 95, 127, 92, 124}", MaxLen=2),
+                G("ranges", Leaves="<-LvCaseRange", Quants="<-QBasic", MaxSize=2, FlagSets="<-FlagsI",
+                  Alpha="{103, 71, 101, 1105, 1025, 1078, 64, 181, 924, 956}", MaxLen=2),
                 T("rand", "case", 2000, 40000)]
     if prop == "C12":
         return [G("anch", Leaves="<-LvAnch", Quants="<-QBasicLazy", MaxSize=3 if q else 4, FlagSets="<-FlagsMS",
@@ -184,12 +201,15 @@ def plan(prop, tier):
         return [G("ws", Leaves="<-LvWs", Quants="<-QSmall" if q else "<-QAll", MaxSize=3, MaxLen=2 if q else 3, Variants='{"ws"}',
                   invs=["T1_RoundTrip", "T11_XStrip"]),
                 G("ws2", Leaves="<-LvWs", Quants="<-QBasic", MaxSize=2, MaxLen=2, Variants='{"ws2"}', invs=["T1_RoundTrip"]),
+                G("wsnest", Leaves="<-LvWsNest", Quants="<-QNone", Shapes="<-ShapesGrpSeq", MaxSize=3 if q else 4, MaxGroups=4, MaxLen=2,
+                  Variants='{"ws"}', invs=["T1_RoundTrip", "T11_XStrip"]),
                 T("rand", "dialect", 1500, 30000)]
     if prop == "C16":
         return [G("null", Leaves="<-LvSem", Quants="<-QAll", MaxSize=4, MaxLen=2 if q else 4),
                 G("dynempty", Leaves="<-LvDynEmpty", Quants="<-QCount2", MaxSize=3 if q else 4, MaxLen=2, FlagSets="<-FlagsM",
                   Alpha="{97, 98}")] + \
                ([] if q else [G("null5", Leaves="<-LvLoop", Quants="<-QBasicLazy", MaxSize=5, MaxLen=2)]) + [
+                K("lit", Mode='"lit"', Toks='"meta"', MaxToks=1 if q else 2, invs=["T10_QLiteral"]),   # flag q: only "" matches empty
                 T("rand", "general", 1500, 30000)]
     if prop == "C17":
         return [K("tok", Toks='"wide"', MaxToks=3 if q else 4, Dialects="{TRUE, FALSE}"),
@@ -210,6 +230,8 @@ def plan(prop, tier):
                   FlagSets="<-OnlyNoFlags"),
                 G("brefi", Leaves="<-LvBrefI", Quants="<-QBasic", MaxSize=4, MaxLen=3, FlagSets="<-FlagsI",
                   Alpha="{97, 65, 98}"),
+                G("brefalt", Leaves="<-LvBrefAlt", Quants="<-QBrefAlt", MaxSize=4, MaxLen=4 if q else 5, MaxGroups=2,
+                  Shapes="<-ShapesNoGrp", FlagSets="<-OnlyNoFlags"),
                 T("rand", "brefs", 2000, 40000)]
     if prop == "C20":
         return [G("laws", Leaves="<-LvLaws", Quants="<-QLaws", MaxSize=3 if q else 4, MaxLen=3, MaxGroups=2,
@@ -218,6 +240,8 @@ def plan(prop, tier):
                   Alpha="{97, 65, 10}", Variants='{"laws"}', invs=["T16_Laws"]),
                 G("lawsfix", Leaves="<-LvLawFix" if q else "<-LvOptFix", Quants="<-QLawFix" if q else "<-QFix", MaxSize=3 if q else 4, MaxLen=5, Alpha="{97, 98}",
                   Variants='{"laws"}', invs=["T1_RoundTrip", "T16_Laws"]),
+                G("lawsvar", Leaves="<-LvVarLen", Quants="<-QVarLen", MaxSize=3, MaxLen=4 if q else 5,
+                  Variants='{"laws"}', invs=["T1_RoundTrip", "T16_Laws", "T21_OpSem"]),
                 T("rand", "general", 1500, 30000),
                 {"type": "facts", "tag": "lower", "profiles": [("general", 400, 6000), ("loops", 300, 4000)]}]
     return []
@@ -315,12 +339,12 @@ def run_check(prop, tier):
                                "modes": ["sequential on shared objects", "4 threads sharing the Regex objects"],
                                "wall_s": info["wall_s"]})
         elif st["type"] == "facts":
-            nev = ncmp = 0
+            nev = ncmp = ndiff = nwit = 0
             for (prof, nq, nt) in st["profiles"]:
                 ftag = tag + "_" + prof
                 d, rs = orch.record(ftag, prof, seed, nq if tier == "quick" else nt, "facts", False)
                 fv, tt = orch.validate_facts(ftag, os.path.join(d, "facts.ndjson"))
-                nev += tt["lines"]; ncmp += tt["compared"]
+                nev += tt["lines"]; ncmp += tt["compared"]; ndiff += tt.get("differ", 0); nwit += tt.get("witnesses", 0)
                 tot["states"] += tt["states"]; tot["transitions"] += tt["states"]
                 for v in fv:
                     v["src"] = ftag
@@ -329,7 +353,9 @@ def run_check(prop, tier):
             tot["trace_compared"] = tot.get("trace_compared", 0) + ncmp
             tot["trace_jobs"] = tot.get("trace_jobs", 0) + nev
             stage_info.append({"stage": st["tag"], "facts_events": nev, "patterns_with_obligations_checked": ncmp,
-                               "inputs_per_pattern": "all strings up to length 3 over the pattern's alphabet + 'x' + LF"})
+                               "trees_or_facts_differing_from_model": ndiff, "witnesses_reported_by_spec": nwit,
+                               "inputs_per_pattern": "all strings up to length 3 (5 where tree or facts differ from the model's) "
+                                                     "over the pattern's alphabet + 'x' + LF"})
         elif st["type"] == "unicode":
             d, us, files = orch.sweep_unicode(tag)
             tt, mm = orch.parallel_trace_specs(tag, files, "UnicodeTrace.tla", "UnicodeTrace.cfg")
